@@ -17,6 +17,10 @@ def lit(t, v):
     if t in ("int", "uint", "ulong"):
         assert d == 1 and (t == "int" or n >= 0)
         return "(%d%s)" % (n, {"int": "", "uint": "u", "ulong": "ul"}[t])
+    if t == "flt":
+        return "(%d.0f / %d.0f)" % (n, d)      # a float-typed scalar (dyadic or small integer: exact)
+    if t == "dbl":
+        return "(%d.0 / %d.0)" % (n, d)        # a double-typed scalar
     return "sc<T>(%d, %d)" % (n, d)
 
 
